@@ -139,6 +139,39 @@ CLAIMED = {
         "note": "Trusted: the in-process driver (conformance-checked against subprocess runs each run), the stub TeX measurer, ete3's Newick parser.",
         "technique": TECH_E2,
     },
+    "C13": {
+        "category": "exploration",
+        "text": "Bounded-exhaustive over every valid mapping (model enumerator) of every binary input with <=4x<=3 leaves (thorough <=5x<=3 and "
+                "<=4x4) x {unlabelled, two ordered labellings} x both orientations x 4 stub size functions: one branch per object node in the species "
+                "it maps to with the model's event kind, per-species loss counts equal to the model's, transferred child on the right; the TikZ text "
+                "holds the same numbers of event nodes, loss markers and transfer arrows, each arrow ending at the anchor of the transferred child; "
+                "the stub asserts one measured box per branch.",
+        "design_ref": "6 (C13)",
+        "note": "Trusted: refmodel/picture.py loss-location rule; stub measurer instead of TeX; the text is scanned, not typeset.",
+        "technique": TECH_E2,
+    },
+    "C14": {
+        "category": "exploration",
+        "text": "Same reconciliations as C13 x 6 stub size functions x 13 DrawParams settings (each numeric layout parameter at 0.5 and 40, all small, "
+                "all large), menus rotated over the inputs: finite coordinates, sibling boxes disjoint and inside the parent's, trunks pairwise "
+                "disjoint, every referenced anchor/branch present (direct lookup and by rendering), horizontal layout = transpose of the vertical "
+                "layout computed with width/height-swapped sizes (1e-9), repeated computation identical.",
+        "design_ref": "6 (C14)",
+        "note": "Continuous parameters are covered on finite menus only. A first version also demanded trunks/event boxes inside the species box; "
+                "that is not in the statement and was removed (DESIGN 9.4).",
+        "technique": TECH_E2,
+    },
+    "C15": {
+        "category": "exploration",
+        "text": "Same reconciliations x every colouring of a menu (none, root, inner, every nested pair, leaf, two subtrees, three levels) with "
+                "labelling / naming scheme (underscores, backslashes) / orientation rotating: scanner for balanced braces, single picture, terminated "
+                "\\path/\\node statements, colours defined before use; colour of every event node and loss marker (layout and text) = nearest coloured "
+                "ancestor-or-self; escaped names; synteny labels list the node's families, omitted iff equal to the parent's. Wrapper: all word lists "
+                "of <=5 (6) words over 4 (5) lengths x widths 1..30 and syntenies of <=12 families against greedy wrapping.",
+        "design_ref": "6 (C15)",
+        "note": "Family names contain no backslash (a doubled backslash in a label is a TeX line break and would be ambiguous to un-wrap).",
+        "technique": TECH_E2,
+    },
     "C16": {
         "category": "model_checking",
         "text": "Explicit-state BFS over all reachable states of real Entry objects and table cells (1-3 dimensional, "
